@@ -87,6 +87,31 @@ def build(repo, spec_dir, canary=False):
     b.slice_fn('from_guard_panics_on_empty', 'pub fn from_guard_panics_on_empty<T>(test_cases: &[T]) -> (reached_end: bool)', '    ' + first + '\n    true', 'builder.rs::RegExpBuilder::from first statement: an empty list does not get past it', props=['C07'],
                clauses=[Clause('from.empty_list_panics', 'test_cases@.len() > 0', ['C07'])], extra_rules=[('R6b', r'vx_unreachable_panic\(\)', 'vx_documented_panic()', 'the documented panic: a diverging call')])
     b.emit('#[verifier::external_body] pub fn vx_documented_panic() -> ! { unimplemented!() }')
+    # RegExpBuilder::from_file, the arm that has read the file: it must behave like `from` on the file's lines (C12), i.e. a file without test cases is the
+    # documented panic of `from`, not a builder with an empty list
+    ff, _, _ = X.fn(b.src('builder.rs'), 'from_file', within=r'^impl RegExpBuilder \{')
+    k = ff.find('Ok(file_content) => ')
+    if k < 0: raise X.LostAnchor('builder.rs::from_file Ok arm')
+    j = k + len('Ok(file_content) => ')
+    if ff[j:].startswith('Self {') or ff[j:].startswith('{'):
+        bo = ff.index('{', j); arm = ff[j:L.match_close(ff, bo) + 1]
+    else: raise X.LostAnchor('builder.rs::from_file Ok arm: neither a block nor a struct expression')
+    fields = [f for f, _ in config_fields(b)]
+    b.emit('pub open spec fn default_config() -> RegExpConfig { RegExpConfig { %s } }' % ', '.join('%s: %s' % (f, {'minimum_repetitions': '1', 'minimum_substring_length': '1'}.get(f, 'false')) for f in fields))
+    b.emit('impl RegExpConfig {')
+    b.verified_fn('config.rs', 'new', within=r'^impl RegExpConfig \{', props=['C07'], fname='RegExpConfig::new', clauses=[Clause('config.new_is_default', 'r == default_config()', ['C12', 'C10'])])
+    b.emit('}')
+    def ff_rules(t, log, w):
+        t2 = re.sub(r'file_content\s*\.lines\(\)\s*\.map\(\|it\| it\.to_string\(\)\)\s*\.collect_vec\(\)', 'file_lines', t)
+        if t2 == t: raise X.LostAnchor('builder.rs::from_file: file_content.lines().map(|it| it.to_string()).collect_vec()')
+        log.add('R30', w, 'file_content.lines().map(|it| it.to_string()).collect_vec()', 'file_lines: the lines of the file, an arbitrary Vec<String> (parameter of the slice)')
+        t3 = re.sub(r'\bSelf \{', 'RegExpBuilder {', t2)
+        if t3 != t2: log.add('R7', w, 'Self { .. }', 'RegExpBuilder { .. } (the slice is a free function)')
+        return t3
+    b.slice_fn('from_file_ok', 'pub fn from_file_ok(file_lines: Vec<String>) -> (r: RegExpBuilder)', '    ' + arm, 'builder.rs::RegExpBuilder::from_file arm `Ok(file_content) => ..`', props=['C07', 'C12'], pre=ff_rules,
+               extra_rules=[('R6b', r'vx_unreachable_panic\(\)', 'vx_documented_panic()', 'the documented panic: a diverging call')],
+               clauses=[Clause('from_file.like_from_on_the_lines', 'r.test_cases@ == file_lines@ && r.config == default_config()', ['C12']),
+                        Clause('from_file.no_test_cases_is_the_documented_panic', 'file_lines@.len() > 0', ['C12', 'C07'])])
     b.emit('} // verus!\nfn main() {}')
     b.trusted += ['panic! is modelled as a call with `requires false` (R6): proves the documented panic unreachable when the argument is positive']
     return b
